@@ -512,11 +512,16 @@ pub fn dec_poll_styled<F: Family>(
     fill_style: u8,
 ) -> PollRun<F> {
     // bit 0: ReadBuf fill style; bit 1: when the future is re-created at a Pending, continue from a
-    // clone of the caller-held state (the original is dropped)
+    // clone of the caller-held state (the original is dropped); bit 2: the transport signals the end of
+    // the stream with Err(UnexpectedEof) instead of an empty read; bits 4..7: payload shape of injected errors
     let clone_state = fill_style & 2 != 0;
+    let eof_as_error = fill_style & 4 != 0;
+    let fault_shape = fill_style >> 4;
     let fill_style = fill_style & 1;
     let mut reader = ScriptedReader::new(data, steps);
     reader.fill_style = fill_style;
+    reader.eof_as_error = eof_as_error;
+    reader.fault_shape = fault_shape;
     reader.fault = fault;
     reader.keep_log = keep_log;
     let pend = reader.pendings.clone();
